@@ -505,6 +505,26 @@ func discharge(results []*FuncResult, timeoutS int, shortFor map[string]bool) []
 	var wg sync.WaitGroup
 	var mu sync.Mutex
 	var reps []*OblReport
+	// cover-any groups need one satisfiable member only: their members first get a short timeout (paths that are
+	// hard to cover would otherwise cost the full timeout each); a group without any covered member is retried
+	// with the full timeout below
+	groupSize := map[string]int{}
+	for _, r := range results {
+		if r.e == nil {
+			continue
+		}
+		for _, o := range r.Obls {
+			if o.Kind == "cover-any" {
+				groupSize[r.Func+"|"+baseOblName(o.Name)]++
+			}
+		}
+	}
+	type retry struct {
+		rep    *OblReport
+		o      *Obligation
+		script string
+	}
+	var retries []retry
 	for _, r := range results {
 		if r.e == nil {
 			continue
@@ -529,6 +549,12 @@ func discharge(results []*FuncResult, timeoutS int, shortFor map[string]bool) []
 			script := r.e.script(o, false)
 			o.Script = script
 			rep.Bytes = len(script)
+			if o.Kind == "cover-any" && groupSize[r.Func+"|"+baseOblName(o.Name)] > 1 && timeoutS > 10 {
+				timeoutS = 10
+				mu.Lock()
+				retries = append(retries, retry{rep, o, script})
+				mu.Unlock()
+			}
 			hasQuant := strings.Contains(script, "(forall ") || strings.Contains(script, "(exists ")
 			var qf string
 			if hasQuant && o.Expect == "unsat" {
@@ -575,6 +601,33 @@ func discharge(results []*FuncResult, timeoutS int, shortFor map[string]bool) []
 				}
 			}()
 		}
+	}
+	wg.Wait()
+	// groups whose members were all cut short: full timeout for each member
+	covered := map[string]bool{}
+	for _, rep := range reps {
+		if rep.Kind == "cover-any" && rep.Status == "discharged" {
+			covered[rep.Func+"|"+baseOblName(rep.Name)] = true
+		}
+	}
+	for _, rt := range retries {
+		rt := rt
+		if covered[rt.rep.Func+"|"+baseOblName(rt.rep.Name)] || rt.rep.Status != "cover-undecided" {
+			continue
+		}
+		wg.Add(1)
+		go func() {
+			defer wg.Done()
+			sr := Solve(rt.o.Name, rt.script, timeoutS, false)
+			rt.o.Result = &sr
+			rt.rep.Solver, rt.rep.Secs = sr.Solver, sr.Secs
+			switch sr.Status {
+			case "sat":
+				rt.rep.Status = "discharged"
+			case "unsat":
+				rt.rep.Status = "vacuous"
+			}
+		}()
 	}
 	wg.Wait()
 	// cover-any groups: one satisfiable member is enough
